@@ -325,4 +325,47 @@ def r4_exception_sets(a, tier):
     return rep
 
 
-RULES = [r1_mirror, r2_codecs, r3_reader, r4_exception_sets]
+def r5_file_lifecycle(a, tier):
+    from ..rules.common import dominating_conditions
+    rep = RuleReport(
+        'C19.R5',
+        'a queue file another process may still read is never deleted: every deletion of a queue file (a call that reaches '
+        'Path.unlink / os.remove on the queue path, directly or registered with atexit) happens only for the file the queue '
+        'created for itself - the call is dominated by the test `path is None` of the constructor (an auto-generated temporary '
+        'file) - never for a path the caller supplied and shares with readers',
+        floor=1,
+    )
+    qmod = a.p.module('tatsu.packetz.queue')
+    deleters = {f.name for f in a.p.functions.values() if f.module is qmod and any(
+        isinstance(n, ast.Call) and isinstance(n.func, ast.Attribute) and n.func.attr in ('unlink', 'remove', 'rmtree') for n in walk_no_defs(f.node))}
+    if not deleters:
+        rep.notes.append('no function of tatsu.packetz.queue deletes files')
+        rep.floor = 0
+        return rep
+    sites = 0
+    for f in [f for f in a.p.functions.values() if f.module is qmod]:
+        pm = a.resolver.parents(f)
+        for n in walk_no_defs(f.node):
+            if not isinstance(n, ast.Call):
+                continue
+            nm = dotted(n.func)
+            target = None
+            if nm.split('.')[-1] in deleters and f.name not in deleters:
+                target = nm
+            elif nm in ('atexit.register', 'weakref.finalize') and n.args and dotted(n.args[0]).split('.')[-1] in deleters:
+                target = f'{nm}({dotted(n.args[0])})'
+            if target is None:
+                continue
+            sites += 1
+            conds = [norm(c) for c in dominating_conditions(f, pm, n)]
+            own_file = any(c.replace(' ', '') in ('pathisNone',) for c in conds)
+            rep.add({'deletion_site': f'{f.qualname}: {target}', 'dominating_conditions': conds, 'only_for_the_queue_own_temporary_file': own_file})
+            if not own_file:
+                rep.fail(f.qualname, f'deletes-shared-file:{target}', f'`{norm(n)[:70]}` arranges for the queue file to be deleted although the path '
+                         f'may have been supplied by the caller (conditions: {conds or "none"}): when the sending process, or any reader, '
+                         f'exits, packets whose send completed disappear for the other readers', f'{f.module.relpath}:{n.lineno}')
+    rep.add({'deletion_sites': sites})
+    return rep
+
+
+RULES = [r1_mirror, r2_codecs, r3_reader, r4_exception_sets, r5_file_lifecycle]
